@@ -6,6 +6,7 @@
              registry takes its lock, i.e. the [locked] LTS).  No guards.
                C14_reset_is_fresh_encoder / _decoder   a released coder behaves like a new one for EVERY later use
                C14_pool_encoder_sessions / _decoder_   every history of pooled uses, arbitrary operations, any pool choice
+               C14_pool_exclusive                      no pooled coder is ever handed to two users (users free once)
                C14_no_alias                            every string/[]byte reachable from a decoded value is Owned
                C14_registry_linearizable               in every interleaving each call writes what it writes alone
              checks/C14.py runs the model in this variant and reports a VIOLATION when the tree under
@@ -86,6 +87,19 @@ Theorem C14_decoder_mode_switch_resets :
   d_refer (dset_simple DR DC ER dr0 dc0 all_fixed b s) = dr0 /\ d_cls (dset_simple DR DC ER dr0 dc0 all_fixed b s) = dc0.
 Proof. exact now_mode_switch_resets. Qed.
 Print Assumptions C14_decoder_mode_switch_resets.
+
+(* WHO may touch a pooled coder.  sync.Pool is a bag and Put accepts duplicates; the users are the
+   functions that call Get* (Formatter, the rpc codecs).  For every history of any number of users
+   and every choice of the pool, if each user frees only what it holds (and thereby stops holding
+   it), then at every instant no object is in the pool twice, both in the pool and held, or held by
+   two users.  The premise is what checks/C14.py establishes on the sources (go/ast walk,
+   harness/cmd/c14pool: every Get* is followed at once by ONE deferred Free* of the same variable and
+   nothing else in the function frees) and on the running code (after every exit of every codec
+   entry point, consecutive Get* calls return pairwise distinct objects, none of them a held one). *)
+Theorem C14_pool_exclusive :
+  forall ops : list oop, disciplined oinit ops = true -> exclusive (orun oinit ops) = true.
+Proof. exact disciplined_exclusive. Qed.
+Print Assumptions C14_pool_exclusive.
 
 (* ===================================================================================== *)
 (* PART I.B  no aliasing                                                                  *)
@@ -189,6 +203,16 @@ Example now_enclosing_completes :
   exists st, run te_enclosing true (init vs_enclosing) ([0; 0] ++ repeat 1 8 ++ repeat 0 4 ++ repeat 1 2) = Some st /\
              finished st = true /\ map out (threads st) = map seq_out vs_enclosing.
 Proof. exact locked_enclosing_completes. Qed.
+(* exclusivity: a disciplined history with reuse and three users; and what one Free too many does (a
+   deferred Free plus an explicit one on the same path): the pool gives object 0 to user 2 AND user 3 *)
+Example ex_owner_history :
+  disciplined oinit sample_owner_history = true /\ o_held (orun oinit sample_owner_history) = [(2, 0); (1, 1)].
+Proof. exact sample_owner_history_ok. Qed.
+Example double_free_refuted :
+  disciplined oinit double_free_history = false /\
+  o_held (orun oinit double_free_history) = [(3, 0); (2, 0)] /\
+  exclusive (orun oinit double_free_history) = false.
+Proof. exact double_free_breaks_exclusivity. Qed.
 (* the inputs of these examples are well-formed (hypotheses of C14_registry_linearizable) *)
 Example ex_wf_enclosing : wf_tenv te_enclosing /\ Forall (wf_val te_enclosing) vs_enclosing.
 Proof. exact wf_enclosing. Qed.
